@@ -101,10 +101,8 @@ impl<T, E> Observer<T, E> for ObservableFutureObserver<T, E> {
       .last_value
       .take()
       .unwrap_or(Err(ObservableError::Empty));
-    self
-      .sender
-      .unbounded_send(last_value)
-      .expect("failed to send observable last emitted value");
+    // the future may have been dropped meanwhile: nobody is waiting then
+    let _ = self.sender.unbounded_send(last_value);
     self.sender.close_channel();
   }
 
